@@ -1225,7 +1225,11 @@ std::optional<QByteArray> QXmppSaslClientScram::respond(const QByteArray &challe
 {
     if (m_step == 0) {
         m_gs2Header = QByteArrayLiteral("n,,");
-        m_clientFirstMessageBare = QByteArrayLiteral("n=") + username().toUtf8() + QByteArrayLiteral(",r=") + m_nonce;
+        // ',' and '=' in the user name are sent as '=2C' and '=3D' (RFC 5802, section 5.1)
+        auto escapedUsername = username().toUtf8();
+        escapedUsername.replace('=', QByteArrayLiteral("=3D"));
+        escapedUsername.replace(',', QByteArrayLiteral("=2C"));
+        m_clientFirstMessageBare = QByteArrayLiteral("n=") + escapedUsername + QByteArrayLiteral(",r=") + m_nonce;
 
         m_step++;
         return m_gs2Header + m_clientFirstMessageBare;
